@@ -68,7 +68,18 @@ ROWS = {
     "cond": [["p", "alice", "data1", "read"], ["p", "admin", "data2", "write"],
              ["g", "alice", "admin", "_", "_"], ["g", "bob", "admin", "true", "false"]],
 }
+# two more kinds, used by the preemption stratum only: role / domain PATTERNS (matching functions installed at build)
+MODELS["pat"] = MODELS["rbac"]
+MODELS["dompat"] = MODELS["dom"]
+ROWS["pat"] = [["p", "book_group", "data1", "read"], ["p", "readers", "data2", "read"], ["p", "/book/1", "data2", "write"],
+               ["g", "/book/:id", "book_group"], ["g", "book_group", "readers"], ["g", "/book/*", "pen_group"]]
+ROWS["dompat"] = [["p", "admin", "d1", "data1", "read"], ["p", "root", "d1", "data2", "read"], ["p", "bob", "d1", "data2", "read"],
+                  ["g", "alice", "admin", "*"], ["g", "admin", "root", "d1"], ["g", "bob", "admin", "d2"]]
 KINDS = ["acl", "rbac", "dom", "cond"]
+
+
+def is_dom(kind):
+    return kind in ("dom", "dompat")
 USERS, ROLES, OBJS, ACTS, DOMS = ["alice", "bob", "carol"], ["admin", "editor"], ["data1", "data2"], ["read", "write"], ["d1", "d2"]
 
 
@@ -162,7 +173,15 @@ def new_model(kind):
 def build(kind, synced=False, rows=None):
     c = _casbin()
     ad = MemAdapter(ROWS[kind] if rows is None else rows)
-    return (c.SyncedEnforcer if synced else c.Enforcer)(new_model(kind), ad)
+    e = (c.SyncedEnforcer if synced else c.Enforcer)(new_model(kind), ad)
+    if kind in ("pat", "dompat"):
+        from casbin.util import key_match2_func, key_match_func
+        inner = e._e if synced else e
+        if kind == "pat":
+            inner.add_named_matching_func("g", key_match2_func)
+        else:
+            inner.add_named_domain_matching_func("g", key_match_func)
+    return e
 
 
 # ----------------------------------------------------------------------------- argument specs (JSON-able) and calls
@@ -428,6 +447,19 @@ def canon(v, depth=0):
     return "<%s>" % tn
 
 
+def order_free(name):
+    """methods whose result lists follow the iteration order of sets of Role objects (hashed by address): the order
+    differs between two enforcers with the same history, so the result is compared as a multiset"""
+    return "implicit" in name or "roles_for_user" in name or "users_for_role" in name or name == "get_all_roles_by_domain"
+
+
+def canon_call(spec, r):
+    c = canon(r)
+    if order_free(spec["m"]) and isinstance(c, list):
+        return sorted(c, key=jd)
+    return c
+
+
 def eff_index(a, ptype):
     fields = set(getattr(a, "field_index_map", {}))
     for t in a.tokens:
@@ -500,7 +532,7 @@ def grid(kind):
     for u in USERS:
         for o in OBJS:
             for a in ACTS:
-                if kind == "dom":
+                if is_dom(kind):
                     reqs += [[u, d, o, a] for d in DOMS]
                 else:
                     reqs.append([u, o, a])
@@ -518,7 +550,7 @@ def observe_final(e, kind):
     roles = []
     if has_g(kind):
         for u in USERS:
-            for d in (DOMS if kind == "dom" else [None]):
+            for d in (DOMS if is_dom(kind) else [None]):
                 try:
                     roles.append(sorted(e.get_roles_for_user(u) if d is None else e.get_roles_for_user_in_domain(u, d)))
                 except Exception as ex:  # noqa: BLE001
@@ -734,9 +766,9 @@ def judge_single(tabs, spec, rec, r_plain, r_sync, s_plain, s_sync, s_before):
     """SPEC on one single-threaded wrapper call; returns list of (what, impl, expected)"""
     out = []
     name = spec["m"]
-    if jd(canon(r_plain)) != jd(canon(r_sync)):
+    if jd(canon_call(spec, r_plain)) != jd(canon_call(spec, r_sync)):
         out.append((f"{name} returns something else than the plain enforcer's method for the same arguments",
-                    dict(synced=canon(r_sync), plain=canon(r_plain)), "equal return values"))
+                    dict(synced=canon_call(spec, r_sync), plain=canon_call(spec, r_plain)), "equal return values"))
     if s_plain != s_sync:
         out.append((f"{name} leaves the wrapped enforcer in another state than the plain enforcer's method",
                     first_diff(json.loads(s_plain), json.loads(s_sync)), "equal resulting states"))
@@ -840,9 +872,10 @@ class patched_rw:
 class SyncedRun:
     """one run of thread programs on a real SyncedEnforcer under the controlled scheduler"""
 
-    def __init__(self, kind, progs, yields=True, step_timeout=30.0):
+    def __init__(self, kind, progs, yields=True, step_timeout=30.0, preempt=None):
         import casbin.util.rwlock as rwmod
         self.kind, self.progs, self.yields = kind, progs, yields
+        self.preempt = preempt          # None | "call" | "line": scheduling points inside casbin/ (sys.settrace)
         with patched_rw(rwmod):
             self.se = build(kind, synced=True)
             self.ylocks = [sched.CoopRLock() for _ in progs]
@@ -857,9 +890,13 @@ class SyncedRun:
                     with self.ylocks[tid]:
                         pass
                 self.rec.invoke(tid, i)
-                r = do_call(self.se, spec, self.kind, False)
+                if self.preempt:
+                    with sched.preemptible(in_casbin, lines=self.preempt == "line"):
+                        r = do_call(self.se, spec, self.kind, False)
+                else:
+                    r = do_call(self.se, spec, self.kind, False)
                 self.rec.returned(tid, i)
-                self.rets[(tid, i)] = canon(r)
+                self.rets[(tid, i)] = canon_call(spec, r)
         return run
 
     def key(self, ctl):
@@ -871,12 +908,17 @@ class SyncedRun:
     def run(self, choose):
         res = self.ctl.run([self.body(p) for p in self.progs], choose)
         res.events = [list(e) for e in self.rec.events]
+        res.yields, res.preempt = self.yields, self.preempt
         res.rets = dict(self.rets)
         res.touches = list(self.rec.touches)
         res.acq = {k: list(v) for k, v in self.rec.acq.items()}
         res.final = observe_final(self.rec.real, self.kind) if res.status == "ok" else None
         res.lock = [self.se._rwlock._active_readers, self.se._rwlock._waiting_writers, self.se._rwlock._writer_active]
         return res
+
+
+def in_casbin(filename):
+    return "/casbin/" in filename
 
 
 def names_of(progs):
@@ -906,7 +948,7 @@ class SeqOutcomes:
             e = build(self.kind)
             rets = {}
             for t, i in order:
-                rets[(t, i)] = canon(do_call(e, self.progs[t][i], self.kind, True))
+                rets[(t, i)] = canon_call(self.progs[t][i], do_call(e, self.progs[t][i], self.kind, True))
             self.memo[k] = (rets, observe_final(e, self.kind))
         return self.memo[k]
 
@@ -929,7 +971,8 @@ class ConcJudge:
         size = (sum(len(p) for p in progs), len(progs), len(res.schedule))
         key = what.split(" takes a too weak lock")[0][:80] if what.startswith("lock discipline") else what.split(":")[0][:60]
         if key not in self.fails or size < self.fails[key][0]:
-            case = dict(check="schedule", kind=kind, progs=progs, schedule=list(res.schedule), events=describe(progs, res.events))
+            case = dict(check="schedule", kind=kind, progs=progs, schedule=list(res.schedule), events=describe(progs, res.events),
+                        yields=getattr(res, "yields", True), preempt=getattr(res, "preempt", None))
             self.fails[key] = (size, case, impl, expected, what)
 
     def flush(self):
@@ -1174,6 +1217,51 @@ def probes(chk, judge, tabs, stats, only=None):
     stats["probes"] = dict(runs=n)
 
 
+# ----------------------------------------------------------------------------- (vi) preemption below the lock level
+def C(m, *a, **k):
+    return dict(m=m, a=list(a), k=k)
+
+
+PREEMPT_PAIRS = [
+    # two READERS inside the same read section, first queries about never-seen names (memoising caches race)
+    ("pat", [[C("enforce", "/book/77", "data2", "read")], [C("has_role_for_user", "/book/77", "book_group")]]),
+    ("pat", [[C("get_implicit_roles_for_user", "/book/5")], [C("enforce", "/book/5", "data1", "read")]]),
+    ("pat", [[C("get_roles_for_user", "/book/1")], [C("get_users_for_role", "book_group")]]),
+    ("dompat", [[C("enforce", "alice", "d1", "data2", "read")], [C("get_roles_for_user_in_domain", "alice", "d7")]]),
+    ("dompat", [[C("get_implicit_permissions_for_user", "alice", "d1")], [C("enforce", "bob", "d2", "data1", "read")]]),
+    ("rbac", [[C("enforce", "carol", "data1", "read")], [C("get_implicit_permissions_for_user", "carol")]]),
+    ("rbac", [[C("get_all_subjects")], [C("get_field_index", "p", "obj")]]),
+    # a reader and a writer: the writer must wait for the reader's section, whatever the preemption point
+    ("pat", [[C("enforce", "/book/77", "data1", "read")], [C("add_grouping_policy", "/pen/:id", "book_group")]]),
+    ("dompat", [[C("get_users_for_role_in_domain", "admin", "d1")], [C("delete_roles_for_user_in_domain", "alice", "admin", "*")]]),
+    ("rbac", [[C("delete_role", "admin")], [C("enforce", "alice", "data2", "write")]]),
+]
+
+
+def preemption_stratum(chk, judge, tabs, lines, deadline, stats, max_k):
+    """every schedule with ONE preemption at function-call (thorough: source-line) granularity inside casbin/:
+    thread a runs k scheduling points, the other thread runs to completion (or until it blocks), a finishes.
+    Judged like every other run: monitor on the events, outcome = an admissible one-at-a-time order."""
+    d = stats.setdefault("one_preemption_inside_casbin", dict(granularity="line" if lines else "call", pairs=0, runs=0,
+                                                              steps=0, cut_by_budget=0))
+    for kind, progs in PREEMPT_PAIRS:
+        if not all(usable(tabs, "rbac", c["m"]) for p in progs for c in p):
+            continue
+        seq = SeqOutcomes(kind, progs)
+        d["pairs"] += 1
+
+        def run_once(choose, kind=kind, progs=progs):
+            return SyncedRun(kind, progs, yields=False, preempt="line" if lines else "call").run(choose)
+
+        for a, k, res in sched.one_preemption_schedules(run_once, n_threads=len(progs), max_k=max_k):
+            judge.add(kind, progs, res, seq, "preempt")
+            d["runs"] += 1
+            d["steps"] += len(res.schedule)
+            if res.status == "hang" or time.time() > deadline:
+                d["cut_by_budget"] += 1
+                break
+
+
 # ----------------------------------------------------------------------------- replay
 def replay(chk):
     rec = json.load(open(chk.replay_file))
@@ -1213,7 +1301,7 @@ def replay(chk):
         kind, progs, schedule = c["kind"], c["progs"], c["schedule"]
         judge = ConcJudge(chk, tabs)
         with sched.pinned_cpu():
-            res = SyncedRun(kind, progs, yields=rec.get("yields", True)).run(sched.follow(list(schedule)))
+            res = SyncedRun(kind, progs, yields=c.get("yields", True), preempt=c.get("preempt")).run(sched.follow(list(schedule)))
         print(f"replay: kind={kind} programs={names_of(progs)} schedule={res.schedule} status={res.status}")
         for line in describe(progs, res.events):
             print("   ", line)
@@ -1274,6 +1362,8 @@ def run(chk, tabs, tier, budget, escalate=False):
             n_rand += 1
             if tier == "quick" and n_rand >= 60:
                 break
+        preemption_stratum(chk, judge, tabs, tier == "thorough", time.time() + (20 if tier == "quick" else 240), stats,
+                           400 if tier == "quick" else 3000)
         if tier == "thorough":
             t_end = time.time() + 120
             while time.time() < t_end:
@@ -1305,7 +1395,10 @@ def main():
                 "chosen at each mutex hand-over of the real RWLockWrite under harness/sched.py); six fixed scenarios + "
                 "seeded random programs (55% writers) explored through ALL interleavings (with a yield point before "
                 "every call when the program has <= 3 calls) and one probe schedule per wrapper and holder kind; "
-                "non-trivial when >= 2 threads run and some call is a writer; distinct by (programs, schedule)")
+                "non-trivial when >= 2 threads run and some call is a writer; distinct by (programs, schedule). "
+                "(d) ten fixed two-thread pairs (seven reader/reader pairs asking first questions about never-seen names on "
+                "pattern-role / pattern-domain models, three reader/writer pairs) under every ONE-preemption schedule at "
+                "function-call (thorough: source-line) granularity inside casbin/ (sys.settrace), judged like (c)")
     chk.assumptions = [
         "threading.RLock/Condition are modelled as a Mesa monitor (C16); the Enter guard of the machine is the "
         "readers-writer specification C16 proves of casbin/util/rwlock.py, not re-proved here",
@@ -1316,8 +1409,8 @@ def main():
         "DomainManager.rm_map / all_links[domain] = [] entries, Assertion.field_index_map entries written by "
         "Model.get_field_index, the `g` closures and the python container types (dict/list/set/tuple, added by "
         "SimpleEval) that enforce() stores in the shared function map; snapshots normalise them away",
-        "interleavings are enumerated at lock-step granularity (threads switch only at mutex acquisition and inside "
-        "wait()); source-line preemption is not explored",
+        "interleavings are enumerated exhaustively at lock-step granularity (threads switch only at mutex acquisition "
+        "and inside wait()); below the lock level only ONE preemption per run is explored, on ten fixed pairs",
         "start_auto_load_policy's timer thread is covered by running the body of _auto_load_policy (one loop "
         "iteration) from a controlled thread; time.sleep is stubbed",
     ]
